@@ -1,5 +1,5 @@
 (* Correspondence for C08: library writer -> library reader -> library writer. *)
-From PNC Require Export Base.Util Base.Words Model.Uamiv.
+From PNC Require Export Base.Util Base.Words Model.Uamiv Model.Lbdy.
 From PNC Require Import Corr.C09.
 Local Open Scope Z_scope.
 
@@ -10,7 +10,15 @@ Inductive case_t :=
     (w1 : list word)                (* first write *)
     (open_ok : bool) (v : view) (tflag etflag : list (Z * Z))   (* reading w1 back *)
     (w2 : list word)                (* writing the re-read file again *)
-| R8 (ref : list word) (recs : list (list word)) (w_ok : bool) (written : list word).
+| R8 (ref : list word) (recs : list (list word)) (w_ok : bool) (written : list word)
+(* lateral-boundary file (Model/Lbdy.v): in-memory file WITHOUT _boundary_def (the writer generates the edge
+   definitions and always derives the end dates) -> library writer -> library reader -> library writer *)
+| WL (l : lbdy)                     (* content of the in-memory file (true end dates, canonical edge definitions) *)
+     (hours : list (Z * Z))         (* begin/end hours as integers *)
+     (w1_ok : bool) (w1 : list word)                             (* first write *)
+     (open_ok : bool) (v : lview) (tflag etflag : list (Z * Z))  (* reading w1 back *)
+     (py_ok : bool)                 (* judged in Python: variable names/order, array shapes, NAME/NOTE/ITZON *)
+     (w2_ok : bool) (w2 : list word).                            (* writing the re-read file again *)
 
 Definition view_eqb_nd (a b : view) : bool :=
   (v_nspec a =? v_nspec b) && (v_nx a =? v_nx b) && (v_ny a =? v_ny b) && (v_nz a =? v_nz b)
@@ -42,4 +50,21 @@ Definition check (c : case_t) : verdict :=
      w_ok && zlist_eqb written ref
      && match unframe_all written with Some rs => zll_eqb rs recs | None => false end,
      0%nat)
+  | WL l hours w1_ok w1 open_ok v tflag etflag py_ok w2_ok w2 =>
+    let bh := map fst hours in
+    let iu := lb_derive l bh true in
+    let f := w1_ok && zlist_eqb w1 (lb_enc iu)
+             && match lb_mm_read w1 (4 * Z.of_nat (length w1)) with
+                | Ok v' => open_ok && lview_eqb_nd v' v
+                           && list_eqb pair_eqb (lb_tflag v' bh) tflag
+                           && list_eqb pair_eqb (lb_etflag v' (map snd hours)) etflag
+                           && w2_ok && zlist_eqb w2 (lb_enc (lb_derive iu bh false))
+                | Err => negb open_ok
+                end in
+    let s_rest := py_ok && w1_ok && open_ok && lview_eqb_nd v (lb_view_of l)
+                  && list_eqb pair_eqb tflag (spec_camx_time (lb_bdates l) bh)
+                  && w2_ok && zlist_eqb w2 w1 in
+    let s_etflag := list_eqb pair_eqb etflag (spec_camx_time (lb_edates l) (map snd hours)) in
+    (f, s_rest && s_etflag,
+     if lb_year_end l hours then 1%nat else 0%nat)
   end.
